@@ -97,6 +97,8 @@ class Report:
     }
     self.assumptions: list[str] = []
     self.violations: list[Violation] = []
+    import shutil
+    shutil.rmtree(os.path.join(REPLAYS, pid), ignore_errors=True)   # replays of earlier runs are stale
     self.known_hits: list[Violation] = []
 
   # -- bookkeeping -------------------------------------------------------------
